@@ -1,4 +1,6 @@
 import PcfgVerif.Properties.SessionCore
+import PcfgVerif.Generated.WriterLoops
+import PcfgVerif.Lemmas.OmenProbLemmas
 import PcfgVerif.Generated.PrintSites
 /-!
 # C12 — the guess stream does not depend on thread timing or on standard input
@@ -55,5 +57,18 @@ swap the process-wide stream while the main loop prints) - regenerated from the 
 theorem C12_status_output_never_touches_stdout :
     Generated.PrintSites.guesserNonStderr =
       [("lib_guesser/pcfg_grammar.py", "PcfgGrammar.print_guess", "stdout")] := by decide
+
+/-- **a status request can be answered at every Markov level**: the status report of a Markov pre-terminal looks the level up in the
+keyspace table loaded from `omen_keyspace.txt`; that file is written by one unguarded loop over
+`reversed(omen_keyspace.most_common())` (regenerated from the source), which lists every level of the keyspace counter
+(`keyspaceFile_perm`), and every level that has a line in `pcfg_omen_prob.txt` - every level the guesser can be inside - is a level of
+that counter.  (A keyboard thread that dies on a status request never reads the `q` typed after it.) -/
+theorem C12_keyspace_file_lists_every_level :
+    ("omen_keyspace.txt", "reversed(omen_keyspace.most_common())") ∈ Generated.WriterLoops.omenLoops ∧
+    (Generated.WriterLoops.omenLoopBodies.filter (·.1 == "omen_keyspace.txt")) = [("omen_keyspace.txt", "every-record")] ∧
+    (∀ ks : List (Nat × Nat), (Omen.keyspaceFile ks).Perm ks) ∧
+    ∀ (ks : List (Nat × Nat)) (c : Omen.LCtr) (n level : Nat) (p : Rat),
+      (level, p) ∈ Omen.omenProbs Omen.ratNOps ks c n → ∃ k, (level, k) ∈ Omen.keyspaceFile ks :=
+  ⟨by decide, by decide, Omen.keyspaceFile_perm, fun ks c n level p h => Omen.prob_level_in_keyspaceFile _ ks c n level p h⟩
 
 end Pcfg.C12
